@@ -1609,7 +1609,7 @@ Proof. intros. unfold deleter_route. reflexivity. Qed.
 Theorem pc_push_handle_routes_here : forall s j, cstep s (CPushH j) = cstep s (CPushU j).
 Proof. intros. cbn [cstep]. destruct (hands s) as [|h hs]; auto; rewrite ?push_handle_releases_into_this_pool; reflexivity. Qed.
 
-Definition cop_pool (o : cop) : nat := match o with CPop j | CTry j | CPushH j | CPushU j => j | _ => 0 end.
+Definition cop_pool (o : cop) : nat := match o with CPop j | CTry j | CPushH j | CPushU j | CMovePool j => j | _ => 0 end.
 Definition cq_all (s : cst) : list nat := flat_map cq (cpools s).
 Definition chome_of (s : cst) (o : nat) : option nat :=
   match find (fun e => Nat.eqb (fst e) o) (chome s) with Some e => Some (snd e) | None => None end.
@@ -1703,7 +1703,7 @@ Qed.
 
 Lemma cinv_step : forall s o, CInv s -> cop_pool o < length (cpools s) -> CInv (cstep s o).
 Proof.
-  intros s o I Hj. destruct o as [j|j| |j|j| |]; cbn [cop_pool] in Hj; cbn [cstep].
+  intros s o I Hj. destruct o as [j|j| |j|j| | |j]; cbn [cop_pool] in Hj; cbn [cstep]; [| | | | | | |apply cinv_hands; auto].
   - (* pop *) destruct (nth_error (cpools s) j) as [p|] eqn:Hp; [|apply nth_error_None in Hp; lia].
     rewrite (nth_error_nth _ _ cpool0 Hp). destruct (cq p) as [|x rest] eqn:Hq.
     + destruct (cstrict p).
@@ -1757,7 +1757,7 @@ Qed.
 Definition cops_ok (n : nat) (ops : list cop) : Prop := Forall (fun o => cop_pool o < n) ops.
 Lemma cstep_npools : forall s o, length (cpools (cstep s o)) = length (cpools s).
 Proof.
-  intros s o. destruct o as [j|j| |j|j| |]; cbn [cstep].
+  intros s o. destruct o as [j|j| |j|j| | |j]; cbn [cstep]; [| | | | | | |reflexivity].
   - destruct (cq (nth j (cpools s) cpool0)); [destruct (cstrict _)|]; cbn; rewrite ?length_set_nth; reflexivity.
   - destruct (cq (nth j (cpools s) cpool0)); cbn; rewrite ?length_set_nth; reflexivity.
   - reflexivity.
@@ -1792,7 +1792,7 @@ Proof. intros s I. apply perm_of_cnt. intros x. rewrite !cnt_app, cnt_seq0. pose
 Theorem pc_leak_only_by_unbound_die : forall s o, cleaked (cstep s o) = cleaked s \/
   (o = CDie /\ exists h hs, hands s = h :: hs /\ hbind h = None /\ cleaked (cstep s o) = cleaked s ++ [hobj h]).
 Proof.
-  intros s o. destruct o as [j|j| |j|j| |]; cbn [cstep].
+  intros s o. destruct o as [j|j| |j|j| | |j]; cbn [cstep]; [| | | | | | |left; reflexivity].
   - left. destruct (cq (nth j (cpools s) cpool0)); [destruct (cstrict _)|]; reflexivity.
   - left. destruct (cq (nth j (cpools s) cpool0)); reflexivity.
   - left. reflexivity.
